@@ -131,10 +131,11 @@ AccDen(c, x) ==
     [] c.mode = "mania" -> (IF Classic(c) THEN 60 ELSE 61) * (x.geki + x.n300 + x.katu + x.n100 + x.n50 + x.miss)
     [] c.mode = "catch" -> x.n300 + x.n100 + x.n50 + x.katu + x.miss
 
-(* |Num/Den - k/T| as a fraction <<n, d>> (Den = 0: accuracy 0) *)
+(* |Num/Den - k/T| as <<n, d>>, meaning n / (d * ACC_T) (Den = 0: accuracy 0); the common factor ACC_T is left out of *)
+(* the denominators so that the cross-multiplication of FracLe stays inside TLC's 32-bit integers                     *)
 DistFrac(c, x) ==
   LET d == AccDen(c, x) IN
-  IF d = 0 THEN <<c.acc, ACC_T>> ELSE <<Abs(AccNum(c, x) * ACC_T - c.acc * d), d * ACC_T>>
+  IF d = 0 THEN <<c.acc, 1>> ELSE <<Abs(AccNum(c, x) * ACC_T - c.acc * d), d>>
 FracLe(p, q) == p[1] * q[2] <= q[1] * p[2]
 
 (* every other distribution of the hit results over the same objects *)
